@@ -1196,10 +1196,17 @@ class SpiSlaveMonitor:
     reports length = number of rising clock edges inside the frame and (in the low min(length, width) bits) the
     received word = MOSI at those edges, MSB first.  MISO (no loopback, the word to send constant from the cs_n edge on, at
     least 3 cycles between the cs_n edge and the first clock edge): at rising clock edge k the pad carries bit width-1-k of
-    the word to send (0 beyond the width)."""
+    the word to send (0 beyond the width).
+    For ANY pad activity (well-formed or not, this slave selected or not): the received word is exactly the shift register
+    of the MOSI values at the pad clock rising edges (clk 0 -> 1 between consecutive cycles) at which cs_n was low, seen
+    three cycles later (two synchroniser registers + the capture register) - so the word presented after irq is the word
+    of that transfer and stays unchanged while the slave is deselected, whatever the clock and MOSI do (foreign traffic
+    on a shared bus)."""
 
     def __init__(self, dw):
         self.dw = dw
+        self.ref = 0             # reference receive register
+        self.pend = [None, None, None]   # captures on their way through the synchroniser: visible 3 cycles later
         self.hist = []           # pad history (clk, cs_n, mosi)
         self.frame = None
         self.expect = None
@@ -1212,6 +1219,15 @@ class SpiSlaveMonitor:
         h = self.hist
         h.append((clk, cs_n, mosi))
         t = len(h) - 1
+        # exact reference of the received word, for any pad activity
+        due = self.pend.pop(0)
+        if due is not None:
+            self.ref = ((self.ref << 1) | due) & ((1 << self.dw) - 1)
+        prev_clk = h[-2][0] if t >= 1 else 0
+        self.pend.append(mosi if (clk and not prev_clk and not cs_n) else None)
+        if rx != self.ref:
+            msg = "received word is 0x%x, the MOSI bits at the clock rising edges under chip select give 0x%x%s" % (
+                rx, self.ref, " (this slave is deselected: cs_n high)" if cs_n else "")
         fr = self.frame
         if t >= 1:
             pc, pn, pm = h[-2]
@@ -1307,6 +1323,14 @@ class SpiSlaveInst(PInst):
                 s += [(0, 0, b)] * half + [(1, 0, b)] * half
             s += [(0, 0, 0)] * rng.randint(3, 6)
             s += [(0, 1, 0)] * rng.randint(4, 12)
+            if rng.random() < 0.6:
+                # shared bus: traffic to another slave while this one is deselected (clock and MOSI keep toggling with
+                # cs_n high), then the bus is quiet again before the next frame
+                fh = rng.choice([1, 2, 3, 5])
+                for k in range(rng.randint(1, 2 * self.dw + 3)):
+                    b = rng.randint(0, 1)
+                    s += [(0, 1, b)] * fh + [(1, 1, b)] * fh
+                s += [(0, 1, 0)] * rng.randint(4, 8)
             self._script = s
             self._tx = rng.getrandbits(self.dw)
         clk, csn, mosi = self._script.pop(0)
